@@ -11,6 +11,12 @@ TEMPLATES = [
     ("function inner() { q = 1; return q; } function outer() { local q; q = 7; foreach k in [1] { z = inner(); } return q; } return [outer(), q];", [7, 1], {"q": 1}, "ok"),
     ("function bump() { c++; return c; } c = 0; foreach c2 in [1, 2] { foreach c in [10] { bump(); } } return c;", 2, {"c": 2}, "ok"),
     ("function w() { ch = \"Z\"; return ch; } s = \"\"; foreach ch in \"ab\" { w(); s = s + ch; } return [s, ch];", ["ab", "Z"], None, "ok"),
+    # what a call or a loop bound is GONE when it ends: the next scope opened at the same depth (a loop, another call) does not see it
+    ("function f(p) { local q; q = 5; return p; } a = f(3); foreach x in [1] { r = [p, q]; } return [a, r];", [3, [None, None]], None, "ok"),
+    ("function f(p) { return p; } function g() { return p; } a = f(3); return [a, g()];", [3, None], None, "ok"),
+    ("foreach v in [7] { w = v; } function h() { return v; } return [w, h()];", [7, None], None, "ok"),
+    ("function f(p) { foreach i in [1, 2] { local z; z = i; } return p; } function g(u) { foreach j in [9] { y = [i, z, p]; } return y; } a = f(4); return g(0);", [None, None, None], None, "ok"),
+    ("function f(n) { if (n == 0) { return 0; } local keep; keep = n; return f(n - 1); } f(3); function look() { return [n, keep]; } return look();", [None, None], None, "ok"),
     # parameters, locals and loop variables written with the legacy `$` prefix are the same variables
     ("function f($a) { $a = $a + 5; return a; } a = 10; r = f(2); return [r, a, $a];", [7, 10, 10], {"a": 10}, "ok"),
     ("function inc($n) { return $n + 1; } function fact($k) { if ($k <= 1) { return 1; } return k * fact(k - 1); } return [inc(2), fact(4)];", [3, 24], None, "ok"),
